@@ -85,6 +85,13 @@ Lemma gabs_gset_fds st x : gabs (gset_fds st x) = gabs st. Proof. reflexivity. Q
 Lemma gout_gset_fds st x : gout (gset_fds st x) = gout st. Proof. reflexivity. Qed.
 #[export] Hint Rewrite g_e_gset_sig g_pos0_gset_sig g_rout_gset_sig g_written_gset_sig g_sig_gset_sig g_vsign_gset_sig g_dep_gset_sig g_fds_gset_sig gabs_gset_sig gout_gset_sig g_e_gset_dep g_pos0_gset_dep g_rout_gset_dep g_written_gset_dep g_sig_gset_dep g_vsign_gset_dep g_dep_gset_dep g_fds_gset_dep gabs_gset_dep gout_gset_dep g_e_gset_vsign g_pos0_gset_vsign g_rout_gset_vsign g_written_gset_vsign g_sig_gset_vsign g_vsign_gset_vsign g_dep_gset_vsign g_fds_gset_vsign gabs_gset_vsign gout_gset_vsign g_e_gset_fds g_pos0_gset_fds g_rout_gset_fds g_written_gset_fds g_sig_gset_fds g_vsign_gset_fds g_dep_gset_fds g_fds_gset_fds gabs_gset_fds gout_gset_fds : gst.
 
+Lemma gset_fds_gwr st b g : gset_fds (gwr st b) g = gwr (gset_fds st g) b. Proof. reflexivity. Qed.
+#[export] Hint Rewrite gset_sig_gwr gset_dep_gwr gset_vsign_gwr gset_fds_gwr gwr_gwr : gpush.
+Lemma gback_vsign st g v : gback_from st (gset_vsign (gsub_of st g) v) = gset_vsign st v.
+Proof. destruct st; reflexivity. Qed.
+Lemma gback_gwr st g b : gback_from st (gwr (gsub_of st g) b) = gset_vsign (gwr st b) None.
+Proof. destruct st; reflexivity. Qed.
+
 Lemma len_pad p a : len (pad p a) = padn p a.
 Proof. apply len_zeros. Qed.
 
@@ -98,6 +105,8 @@ Proof.
 Qed.
 Lemma padn_after p a : a <> 0 -> (p + padn p a) mod a = 0.
 Proof. intros Ha. now apply padn_spec. Qed.
+Lemma pad_shift s off a : a <> 0 -> s mod a = 0 -> pad (s + off) a = pad off a.
+Proof. intros Ha H. unfold pad. now rewrite padn_shift. Qed.
 Lemma pad_aligned p a : a <> 0 -> p mod a = 0 -> pad p a = [].
 Proof. intros Ha H. unfold pad. now rewrite padn_aligned. Qed.
 Lemma mod_trans s big small : big <> 0 -> small <> 0 -> s mod big = 0 -> big mod small = 0 -> s mod small = 0.
